@@ -86,6 +86,7 @@ EXTRA={
             '//@ loop "for item := list.head" invariant [C03] rank.forward: rank >= 0 && rank <= gRank0 && (len(matches) > 0 ==> rank == 0)',
             '//@ loop "for item := list.tail" invariant [C03] rank.backward: rank >= 0 && rank <= gRank0 && (len(matches) > 0 ==> rank == 0)',
             '//@ requires [C13] rank.norm: rank >= 0 && count >= 0 && maxLength >= 0'],
+ 'getIds': ['//@ modifies storeKey.lastAccess ghost.held ghost.lookupAbsent ghost.now alloc'],
  'restore': ['//@ ensures internal [C06,C13] restored.string: output.data == rstrOK ==> mutated && flagHasOne(newSk.flags, FLAG_KEY_TYPE_STRING) && istype(newSk.payload, []byte) && len(unbox(newSk.payload, []byte)) == len(serializedData) - 14',
             '//@ ensures [C06] refused.inert: output.data != rstrOK ==> !mutated'],
  'hashTableScan': ['//@ touches C17', '//@ requires [C17,C13] count.positive: count >= 1', '//@ requires !scanStarted'],
@@ -211,7 +212,15 @@ EXTRA={
             '//@ loop "for i := 1; i < len(sets); i++" invariant [C05] sets: allsel(k, 0, len(sets), sets[k] != nil && !sets[k].scratch) && i >= 1',
             '//@ loop "for iter := s1.createIterator(); iter.next();" invariant [C05] fresh: d != nil && d.scratch && !wrongType',
             '//@ loop "for i := 1; i < len(sets); i++" invariant [C05] operands: forall r *redisDict :: !r.scratch ==> r.vdom == old(r.vdom) && r.vval == old(r.vval) && r.count == old(r.count)',
-            '//@ loop "for i := 1; i < len(sets); i++" invariant [C05] fresh: d != nil && d.scratch && !wrongType'],
+            '//@ loop "for i := 1; i < len(sets); i++" invariant [C05] fresh: d != nil && d.scratch && !wrongType',
+            # SINTERCARD: an absent key makes the result empty; with LIMIT the count never exceeds it; every counted member is in the first set
+            '//@ ensures internal [C05] missing.empty: !wrongType && missing ==> d.count == 0',
+            '//@ loop "for iter := s1.createIterator(); iter.next();" invariant [C05] limit: limit > 0 ==> d.count < limit',
+            '//@ loop "for i := 1; i < len(sets); i++" invariant [C05] limit: limit > 0 ==> d.count < limit',
+            '//@ ensures [C05] limit: !wrongType && limit > 0 ==> d.count <= limit',
+            '//@ loop "for iter := s1.createIterator(); iter.next();" invariant [C05] members.first: allstr(q, !d.vdom[q] || s1.vdom[q])',
+            '//@ loop "for i := 1; i < len(sets); i++" invariant [C05] members.first: allstr(q, !d.vdom[q] || s1.vdom[q])',
+            '//@ loop "for i := 1; i < len(sets); i++" invariant [C05] members.checked: found ==> allsel(k, 1, i, sets[k].vdom[iter.key])'],
  'setKeys': ['//@ requires [C13] samelen: len(values) >= len(keys)',
             '//@ use dataStore.newStoreKeyUnlocked.others',
             '//@ loop "for _, keyName := range keys" invariant [C02] nomut: !mutated && flagHasOne(options, SET_NOT_EXIST)',
